@@ -1618,7 +1618,7 @@ esl_vec_FLogValidate(const float *vec, int64_t n, float tol, char *errbuf)
 
  ERROR:
   if (expvec != NULL) free(expvec);
-  return eslOK;
+  return status;
 }
 int
 esl_vec_DLog2Validate(const double *vec, int64_t n, double tol, char *errbuf)
@@ -1658,7 +1658,7 @@ esl_vec_FLog2Validate(const float *vec, int64_t n, float tol, char *errbuf)
 
  ERROR:
   if (expvec != NULL) free(expvec);
-  return eslOK;
+  return status;
 }
 
 
